@@ -31,6 +31,11 @@ pub enum CollState {
     InitLimitShareValue,
     /// staked collateral (forged StakedWithPythPush bank, pool exchange rate 1.08), SOL-tagged debt banks
     Staked,
+    /// collateral held through a venue: the bank is re-tagged after the deposit and priced by the underlying's
+    /// Pyth feed times the venue's exchange rate 1.1 (Kamino / Solend reserve, Drift spot market)
+    VenueKamino,
+    VenueSolend,
+    VenueDrift,
 }
 
 #[derive(Clone, Copy, Debug, PartialEq, Eq, serde::Serialize, serde::Deserialize)]
@@ -251,6 +256,54 @@ pub fn build(c: &Cfg, tag: &str) -> Option<Built> {
                 if std::env::var("VERIF_C04_DEBUG").is_ok() { eprintln!("c04 build failed at line 237: {:?}", c); }
                 return None;
             }
+        }
+        CollState::VenueKamino | CollState::VenueSolend | CollState::VenueDrift => {
+            let venue_k = world::key(&format!("C04{tag}:venue_account"));
+            let (setup, vtag, acct_data) = match c.state {
+                CollState::VenueKamino => {
+                    let mut r: kamino_mocks::state::MinimalReserve = bytemuck::Zeroable::zeroed();
+                    r.available_amount = 1_100_000_000_007;
+                    r.mint_total_supply = 1_000_000_000_000;
+                    r.mint_decimals = 6;
+                    r.slot = s.slot;
+                    let mut d = kamino_mocks::state::RESERVE_DISCRIMINATOR.to_vec();
+                    d.extend_from_slice(bytemuck::bytes_of(&r));
+                    (marginfi_type_crate::types::OracleSetup::KaminoPythPush, marginfi_type_crate::constants::ASSET_TAG_KAMINO, crate::svm::Acct::new(1, d, kamino_mocks::ID))
+                }
+                CollState::VenueSolend => {
+                    let mut r: solend_mocks::state::SolendMinimalReserve = bytemuck::Zeroable::zeroed();
+                    r.liquidity_available_amount = 1_100_000_000_007;
+                    r.collateral_mint_total_supply = 1_000_000_000_000;
+                    r.liquidity_mint_decimals = 6;
+                    r.last_update_slot = s.slot;
+                    let mut d = solend_mocks::state::RESERVE_DISCRIMINATOR.to_vec();
+                    d.extend_from_slice(bytemuck::bytes_of(&r));
+                    (marginfi_type_crate::types::OracleSetup::SolendPythPull, marginfi_type_crate::constants::ASSET_TAG_SOLEND, crate::svm::Acct::new(1, d, solend_mocks::ID))
+                }
+                _ => {
+                    let mut m = drift_mocks::state::MinimalSpotMarket::default();
+                    m.cumulative_deposit_interest = 11_000_000_007u128.to_le_bytes();
+                    m.decimals = 6;
+                    m.last_interest_ts = s.now as u64;
+                    let mut d = drift_mocks::state::SPOT_MARKET_DISCRIMINATOR.to_vec();
+                    d.extend_from_slice(bytemuck::bytes_of(&m));
+                    (marginfi_type_crate::types::OracleSetup::DriftPythPull, marginfi_type_crate::constants::ASSET_TAG_DRIFT, crate::svm::Acct::new(1, d, drift_mocks::ID))
+                }
+            };
+            s.set(venue_k, acct_data);
+            world::edit_bank(&mut s, &w.banks[ci].key, |b| {
+                b.config.oracle_setup = setup;
+                b.config.oracle_keys[1] = venue_k;
+                b.config.asset_tag = vtag;
+            });
+            let acct = w.users[0].account;
+            world::edit_account(&mut s, &acct, |a| {
+                for bal in a.lending_account.balances.iter_mut() {
+                    if bal.active != 0 && bal.bank_pk == w.banks[ci].key {
+                        bal.bank_asset_tag = vtag;
+                    }
+                }
+            });
         }
         CollState::InitLimit => {
             // the bank holds $1,001,000 of deposits; cap the value counted for initial margin at $400,000
@@ -488,6 +541,14 @@ pub fn configs(tier: Tier) -> Vec<Cfg> {
                     for &state in &[CollState::InitLimitShareValue, CollState::Staked] {
                         v.push(Cfg { w_init, price_e8, ema, conf_pp, state, second: false, liab_w: 1.25, liab_conf_pp: 0, emode: Emode::Off, withdraw, many: false, no_main: false });
                     }
+                    if !withdraw {
+                        // (the plain withdraw instruction does not serve venue banks)
+                        for &state in &[CollState::VenueKamino, CollState::VenueSolend, CollState::VenueDrift] {
+                            for second in [false, true] {
+                                v.push(Cfg { w_init, price_e8, ema, conf_pp, state, second, liab_w: 1.25, liab_conf_pp: 0, emode: Emode::Off, withdraw, many: false, no_main: false });
+                            }
+                        }
+                    }
                     for &emode in &[Emode::TwoLiabsPlainKeyAbove, Emode::TwoLiabsPlainKeyBelow] {
                         for second in [false, true] {
                             v.push(Cfg { w_init, price_e8, ema, conf_pp, state: CollState::Normal, second, liab_w: 1.25, liab_conf_pp: 0, emode, withdraw, many: false, no_main: false });
@@ -546,7 +607,7 @@ pub fn run(tier: Tier) -> Outcome {
     o.coverage = json!({
         "evaluations": execs,
         "distinct_nontrivial": health_limited,
-        "rule": "complete product of configuration menus (collateral weight x price/EMA ratio x confidence x {normal, reduce-only, isolated, stale oracle, collateral-value cap} x second collateral x liability weight x liability confidence x e-mode variant x {borrow, withdraw}) plus 16-position portfolios; per configuration the amount is bisected through the real instruction, then boundary +-8 and a 32-point grid are executed; every acceptance is judged against the exact reference health of its real post-state, the boundary rejection against the reference health one unit further; distinct_nontrivial = configurations whose boundary is decided by the health check (interior boundary, rejection code RiskEngineInitRejected)",
+        "rule": "complete product of configuration menus (collateral weight x price/EMA ratio x confidence x {normal, reduce-only, isolated, stale oracle, collateral-value cap; plus staked collateral and collateral held through Kamino / Solend / Drift at exchange rate 1.1} x second collateral x liability weight x liability confidence x e-mode variant x {borrow, withdraw}) plus 16-position portfolios; per configuration the amount is bisected through the real instruction, then boundary +-8 and a 32-point grid are executed; every acceptance is judged against the exact reference health of its real post-state, the boundary rejection against the reference health one unit further; distinct_nontrivial = configurations whose boundary is decided by the health check (interior boundary, rejection code RiskEngineInitRejected)",
         "configurations": cfgs.len(),
         "exhaustive": true,
         "max_allowance_dollars": max_allow,
